@@ -244,3 +244,38 @@ func SetKey(rrs []dns.RR) string {
 	sort.Strings(k)
 	return strings.Join(k, " | ")
 }
+
+// DenialRRset returns the NSEC / NSEC3 record the universe publishes at owner
+// (nil when there is none) and the security status of the zone that holds it.
+func (u *Universe) DenialRRset(owner string, rtype uint16) ([]dns.RR, Status, bool) {
+	owner = Canon(owner)
+	switch rtype {
+	case dns.TypeNSEC:
+		z, _, lame := u.authStep(owner, dns.TypeNSEC)
+		if lame {
+			return nil, Indeterminate, false
+		}
+		// an NSEC at a delegation point belongs to the parent side: authStep(…, NSEC) refers into the
+		// child for a cut name, so also try the parent of the zone found
+		for _, c := range []*Zone{z, z.Parent} {
+			if c != nil && c.nsec != nil {
+				if n := c.nsec[owner]; n != nil {
+					return []dns.RR{dns.Copy(n)}, u.ZoneStatus(c), true
+				}
+			}
+		}
+		return nil, u.ZoneStatus(z), false
+	case dns.TypeNSEC3:
+		apex := parentName(owner)
+		z := u.zones[apex]
+		if z == nil || z.n3 == nil {
+			return nil, Indeterminate, false
+		}
+		h := strings.ToUpper(strings.SplitN(owner, ".", 2)[0])
+		if n := z.n3[h]; n != nil {
+			return []dns.RR{dns.Copy(n)}, u.ZoneStatus(z), true
+		}
+		return nil, u.ZoneStatus(z), false
+	}
+	return nil, Indeterminate, false
+}
